@@ -64,12 +64,44 @@ class Runaway(Exception):
     """Far more deliveries than any synchronisation of this universe needs, and still messages in flight."""
 
 
+def build_big_block(cfg, keys, parent, tag=b""):
+    """Universe {0, 1}: block 1 carries one transaction that spreads the genesis reward over so many outputs that the block's encoding is
+    within 40 bytes of MAX_BLOCK_SIZE (a valid block: the limit is inclusive); the coinbase's free data does the fine tuning."""
+    import skepticoin.params as params
+    limit = params.MAX_BLOCK_SIZE
+    w = sk.World(cfg, keys, tag=b"big" + tag)
+    g = w.make_genesis()
+    total = cfg.subsidy(0)
+
+    def make(n, data):
+        outs = [(1, 2)] * n + [(total - n, 1)]
+        d = blk(1, 0, 1, [cb(1, 1, cfg.subsidy(1), k=1, data=data), tx(11, [(0, 0, 1)], outs)])
+        d["ts"] = 11
+        return d
+    w0 = sk.World(cfg, keys, tag=b"bigprobe" + tag)
+    w0.make_genesis()
+    size1 = len(w0.concretise(make(1, b"")).serialize())
+    size2 = len(w0.concretise(dict(make(2, b""), id=2)).serialize())
+    per = size2 - size1
+    n = (limit - 20 - size1) // per + 1
+    size_n = size1 + (n - 1) * per
+    pad = limit - 20 - size_n
+    if not 0 <= pad <= 190:
+        raise RuntimeError("cannot size the block: %d outputs give %d bytes" % (n, size_n))
+    b1 = w.concretise(make(n, b"p" * pad))
+    real = len(b1.serialize())
+    if not limit - 57 <= real <= limit:
+        raise RuntimeError("block of %d bytes is not within 57 bytes of the limit %d" % (real, limit))
+    t1 = w.concretise_tx(dict(tx(9001, [(11, 0, 2)], [(1, 1)]), _owner={0: 2}))
+    return w, g, {0: g, 1: b1}, t1
+
+
 class Run:
-    def __init__(self, cfg, keys, parent, init, peers, batch, tid):
+    def __init__(self, cfg, keys, parent, init, peers, batch, tid, builder=None):
         self.ndeliver = 0
         self.budget = max(4000, 150 * len(parent) * sum(len(v) for v in peers.values()))
         self.parent, self.init, self.peers = parent, init, peers
-        self.w, self.g, self.blocks, self.t1 = build_blocks(cfg, keys, parent)
+        self.w, self.g, self.blocks, self.t1 = (builder or build_blocks)(cfg, keys, parent)
         self.id_of = {b.hash(): i for i, b in self.blocks.items()}
         self.tx_id = {indep.txid(self.t1): 1}
         init_blocks = {n: [self.blocks[i] for i in sorted(s) if i != 0] for n, s in init.items()}
@@ -389,6 +421,24 @@ def run(pid, tier, replay=None):
     chk.mark("randomized schedules run")
     for key, (parent, init, peers, batch, traces) in traces_by.items():
         judge(chk, traces, parent, init, peers, batch)
+    # ---- a block whose encoding is within 40 bytes of the largest a block may have (valid: the limit is inclusive) is synchronised like any other
+    cfg_big = sk.Cfg(period=1000, timespan=4, initial_subsidy=10 ** 9, halving=10 ** 6, max_money=21 * 10 ** 14)
+    sk.apply_cfg(cfg_big)
+    parent_b, init_b, peers_b = {0: 0, 1: 0}, {1: {0, 1}, 2: {0}}, {1: {2}, 2: {1}}
+    tid += 1
+    run_ = Run(cfg_big, keys, parent_b, init_b, peers_b, 2, tid, builder=build_big_block)
+    try:
+        try:
+            run_.settle(rng)
+            tr_b = run_.trace()
+        except Runaway:
+            tr_b = run_.runaway_trace()
+        chk.extra["largest_block_synchronised_bytes"] = len(run_.blocks[1].serialize())
+        chk.case(("big_block",), nontrivial=True)
+    finally:
+        run_.close()
+    judge(chk, [tr_b], parent_b, init_b, peers_b, 2)
+    sk.apply_cfg(cfg)
     chk.mark("randomized schedules validated")
     if traces_by:
         chk.sample({"source": "randomized schedule", "universe": kind, "events": [[e["a"], e["n"], e["m"]] for e in traces[0]["events"][:15]]})
